@@ -28,13 +28,22 @@ import (
 	"time"
 )
 
-const (
-	verifDir = "/verif"
-	repoDir  = "/repo"
-	goBin    = "go1.26.8"
+const goBin = "go1.26.8"
+
+// verifDir / repoDir: /verif and /repo unless overridden (background runs from a
+// snapshot use VERIF_DIR=<snapshot> VERIF_REPO=<repo snapshot>).
+var (
+	verifDir = envOr("VERIF_DIR", "/verif")
+	repoDir  = envOr("VERIF_REPO", "/repo")
+	buildDir = filepath.Join(verifDir, ".build")
 )
 
-var buildDir = filepath.Join(verifDir, ".build")
+func envOr(k, d string) string {
+	if v := os.Getenv(k); v != "" {
+		return v
+	}
+	return d
+}
 
 type Violation struct {
 	Property  string `json:"property"`
